@@ -297,7 +297,29 @@ class Executor(StmtMixin, ExprMixin, CallMixin, LibMixin):
 
         pp = _P()
         pp.cls_terms = ob.cls_terms
-        return self.class_axioms(pp)
+        return self.class_axioms(pp) + self.class_axioms_quantified()
+
+    def class_axioms_quantified(self):
+        """the class hierarchy / family disjointness over class ids (covers references that only occur
+        under quantifiers or were met on cloned paths)"""
+        preds = sorted(self.cls_preds)
+        infos = {p: self.repo.cls(p) for p in preds}
+        groups = [("IInput", "IOutput"), ("IComponent",), ("Info",), ("GridBase",), ("Composition",)]
+        roots = {}
+        for p in preds:
+            for gi, g in enumerate(groups):
+                if any(self.repo.has_cls(b) and self.repo.cls(b) in infos[p].mro for b in g):
+                    roots.setdefault(p, set()).add(gi)
+        k = z3.Int("cls!k")
+        out = []
+        for d in preds:
+            for c in preds:
+                if d != c and infos[c] in infos[d].mro:
+                    out.append(z3.ForAll([k], sv.Implies(self.isa(d, k), self.isa(c, k)), patterns=[self.isa(d, k)]))
+                if d < c and roots.get(d) and roots.get(c) and not (roots[d] & roots[c]):
+                    out.append(z3.ForAll([k], sv.Not(sv.And(self.isa(d, k), self.isa(c, k))),
+                                         patterns=[z3.MultiPattern(self.isa(d, k), self.isa(c, k))]))
+        return out
 
     def frame_unchanged(self, p, c, node):
         """on this exit no field in the modifies clause was changed"""
